@@ -13,7 +13,7 @@
 (***************************************************************************)
 EXTENDS Pattern, Json, SequencesExt, FiniteSetsExt
 
-CONSTANTS Universe,   \* "expr" | "meta" | "multi" | "args" | "elts" | "stmts"
+CONSTANTS Universe,   \* "expr" | "meta" | "multi" | "args" | "elts" | "stmts" | "params" | "fields"
           MaxArgs,    \* bound on pattern list length
           MaxList     \* bound on subject list length (elision universes)
 
@@ -29,6 +29,13 @@ Comp(ty, l)   == [k |-> "CompositeLit", s |-> <<NodeSlot("Expr", ty), AtomSlot("
 ExprStmt(x)   == [k |-> "ExprStmt", s |-> <<NodeSlot("Expr", x)>>]
 Block(l)      == [k |-> "BlockStmt", s |-> <<AtomSlot("1"), ListSlot("Stmt", l), AtomSlot("1")>>]
 Stmts(l)      == [k |-> "@stmts", s |-> <<ListSlot("Stmt", <<[k |-> "@dots", s |-> <<AtomSlot("pre")>>]>> \o l \o <<[k |-> "@dots", s |-> <<AtomSlot("post")>>]>>)>>]
+NilSlot(ty)   == [t |-> "z", a |-> "", ty |-> ty, v |-> <<>>]
+\* a parameter / struct field "n T": Names, Type, Tag
+Fld(n, ty)    == [k |-> "Field", s |-> <<ListSlot("Ident", <<Id(n)>>), NodeSlot("Expr", Id(ty)), NilSlot("BasicLit")>>]
+FList(l)      == [k |-> "FieldList", s |-> <<AtomSlot("1"), ListSlot("Field", l), AtomSlot("1")>>]
+\* func(<params>)  (a function type; printed on one line)  and  struct{ <fields> }
+FuncLitP(l)   == [k |-> "FuncType", s |-> <<AtomSlot("1"), NilSlot("FieldList"), NodeSlot("FieldList", FList(l)), NilSlot("FieldList")>>]
+StructT(l)    == [k |-> "StructType", s |-> <<AtomSlot("1"), NodeSlot("FieldList", FList(l)), AtomSlot("false")>>]
 Meta(n, kind) == [k |-> "@meta", s |-> <<AtomSlot(n), AtomSlot(kind)>>]
 Dots(id)      == [k |-> "@dots", s |-> <<AtomSlot(id)>>]
 
@@ -124,8 +131,12 @@ MSubjects == {Call(Id("f"), <<t, u>>) : t, u \in MFill}
 \* ------------------------------------------- universes "args"/"elts"/"stmts"
 \* elision: every pattern list over {a, b, x, ...} with >= 1 elision and no
 \* two adjacent elisions, against every list over {a, b} (C04)
-LElem(kind, n) == IF kind = "stmts" THEN ExprStmt(Call(Id(n), <<>>)) ELSE Id(n)
-LMeta(kind)    == IF kind = "stmts" THEN ExprStmt(Call(Id("f"), <<X>>)) ELSE X
+IsFieldKind(kind) == kind \in {"params", "fields"}
+LElem(kind, n) == IF kind = "stmts" THEN ExprStmt(Call(Id(n), <<>>)) ELSE IF IsFieldKind(kind) THEN Fld(n, "int") ELSE Id(n)
+\* (in field lists the metavariable is the name of the field: an identifier metavariable)
+LMeta(kind)    == IF kind = "stmts" THEN ExprStmt(Call(Id("f"), <<X>>))
+                  ELSE IF IsFieldKind(kind) THEN [k |-> "Field", s |-> <<ListSlot("Ident", <<I>>), NodeSlot("Expr", Id("int")), NilSlot("BasicLit")>>]
+                  ELSE X
 \* symbols: "a", "b", "x" (metavariable), "." (elision)
 Syms == {"a", "b", "x", "."}
 SymPats == {l \in SeqsUpTo(Syms, MaxArgs) : /\ Len(l) > 0
@@ -145,16 +156,23 @@ QElems(kind, l) == [i \in DOMAIN l |->
                         [] l[i] = "x" -> LMeta(kind)
                         [] OTHER      -> LElem(kind, "c")]
 LWrapP(kind, l) == CASE kind = "args"  -> Call(Id("f"), l)
+                     [] kind = "params" -> Call(Id("w"), <<FuncLitP(l)>>)    \* (a pattern cannot START with a func literal)
+                     [] kind = "fields" -> Call(Id("new"), <<StructT(l)>>)
                      [] kind = "elts"  -> Comp(Id("t_T"), l)
                      [] kind = "stmts" -> Stmts(l)
 LWrapQ(kind, l) == CASE kind = "args"  -> Call(Id("h"), l)
+                     [] kind = "params" -> Call(Id("w"), <<FuncLitP(l)>>)    \* (a pattern cannot START with a func literal)
+                     [] kind = "fields" -> Call(Id("new"), <<StructT(l)>>)
                      [] kind = "elts"  -> Comp(Id("t_U"), l)
                      [] kind = "stmts" -> Stmts(l)
 LWrapS(kind, l) == CASE kind = "args"  -> Call(Id("f"), l)
+                     [] kind = "params" -> Call(Id("w"), <<FuncLitP(l)>>)    \* (a pattern cannot START with a func literal)
+                     [] kind = "fields" -> Call(Id("new"), <<StructT(l)>>)
                      [] kind = "elts"  -> Comp(Id("t_T"), l)
                      [] kind = "stmts" -> Block(l)
 SFill(kind, n) == IF kind = "stmts"
                   THEN (IF n = "fa" THEN ExprStmt(Call(Id("f"), <<Id("a")>>)) ELSE ExprStmt(Call(Id(n), <<>>)))
+                  ELSE IF IsFieldKind(kind) THEN Fld(n, "int")
                   ELSE Id(n)
 \* subject elements: a, b and (for the metavariable) f(a) in statement lists
 SubjSyms(kind) == IF kind = "stmts" THEN {"a", "b", "fa"} ELSE {"a", "b"}
